@@ -2,6 +2,7 @@ package checks
 
 import (
 	"fmt"
+	"github.com/bartossh/Computantis/src/accountant"
 	"time"
 
 	"verifharness/core"
@@ -87,7 +88,7 @@ func init() {
 		},
 		Plan: ledgerPlan(8, 56),
 		Worker: func(w *core.WorkerCtx) {
-			runRandomScenarios(w, []string{"C03"}, w.Pick(10, 50), func(p *ledger.Profile) { p.PReplay = 0.3; p.PConcurrent = 0.12 }, nil)
+			runRandomScenarios(w, []string{"C03"}, w.Pick(10, 50), func(p *ledger.Profile) { p.PReplay = 0.3; p.PConcurrent = 0.12 }, c03SyncReplay)
 			c03Concurrent(w)
 		},
 	})
@@ -117,4 +118,73 @@ func init() {
 			c10Genesis(w)
 		},
 	})
+}
+
+// c03SyncReplay: the replay protection also holds for a ledger obtained by syncing. The peer's own stream is extended
+// by a second, validly signed vertex of another sealer that wraps a transaction the stream already carries (first or
+// last in stream order), and the same stream is offered again to a node whose first load was refused. Whatever the
+// loader answers, the node must not hold one transaction in two vertices and its index must point at the holder.
+func c03SyncReplay(d *ledger.Driver) {
+	world := d.W
+	src := world.Nodes[0]
+	s, err := ledger.TakeSnap(src.Book)
+	if err != nil || len(s.Stored) > 0 || len(s.Live) < 3 {
+		return
+	}
+	var stream []*accountant.Vertex
+	var tip ledger.H
+	var wgt uint64
+	var victim *accountant.Vertex
+	for h, l := range s.Live {
+		c := l.V
+		stream = append(stream, &c)
+		if s.Leaves[h] {
+			tip, wgt = h, l.V.Weight
+		}
+		if l.V.Hash != world.Genesis.Hash && victim == nil {
+			victim = &c
+		}
+	}
+	if victim == nil {
+		return
+	}
+	sealer := world.Sealers[0]
+	if victim.SignerPublicAddress == sealer.Addr {
+		sealer = world.Sealers[1]
+	}
+	dup := ledger.ForgeVertex(sealer, victim.Transaction, tip, tip, wgt+1, world.Now())
+	for variant := 0; variant < 2; variant++ {
+		st := append([]*accountant.Vertex{}, stream...)
+		if variant == 0 {
+			st = append(st, &dup)
+		} else {
+			st = append([]*accountant.Vertex{&dup}, st...)
+		}
+		n, loaded, _ := world.AddLoadedNode("R", st, false)
+		if n == nil {
+			continue
+		}
+		world.EvalFor("C03", 1)
+		world.NontrivFor("C03", fmt.Sprintf("sync-replay/variant%d/loaded=%v", variant, loaded))
+		if ns, err := ledger.TakeSnap(n.Book); err == nil {
+			holders := 0
+			for _, l := range ns.Live {
+				if l.V.Transaction.Hash == victim.Transaction.Hash {
+					holders++
+				}
+			}
+			if holders > 1 {
+				world.Violate("C03", "transaction-sealed-twice/sync", fmt.Sprintf("a synced node (loaded=%v) holds transaction %s in %d vertices: the stream carried it sealed by two nodes", loaded, ledger.Hex(victim.Transaction.Hash), holders))
+			}
+			if loaded {
+				if vh, ok := ns.Index[victim.Transaction.Hash]; ok {
+					if l, live := ns.Live[vh]; !live || l.V.Transaction.Hash != victim.Transaction.Hash {
+						world.Violate("C03", "index-points-elsewhere/sync", fmt.Sprintf("the index of a synced node maps transaction %s to a vertex that does not hold it", ledger.Hex(victim.Transaction.Hash)))
+					}
+				}
+			}
+		}
+		world.CloseNode(n)
+	}
+	world.Res.Count("c03_sync_replay_streams", 2)
 }
